@@ -71,6 +71,14 @@ package hotstuff
 //@   ensures [deterministic] content(result) == sigbytes(self) && len(result) == sigbyteslen(self)
 //@   modifies alloc
 
-//@ func NewPartialCert
-//@   trusted iterates the participant set through the IDSet interface with a closure (iterator contract not modelled)
+// Iterators: ForEach / RangeWhile call f zero or more times, each time with a member of the
+// set, and do nothing else (order, count and completeness are not specified here).
+//@ interface IDSet.ForEach
+//@   opt iterates f :: setmem(self, it)
+//@ interface IDSet.RangeWhile
+//@   opt iterates f :: setmem(self, it)
+
+//@ func NewPartialCert property C12
 //@   ensures result.signature == signature && result.blockHash == blockHash
+//@   ensures [signer-is-a-participant] signature != nil ==> (result.signer == 0 || setmem(parts(signature), result.signer))
+//@   loop iter0 invariant *signer == 0 || setmem(parts(signature), *signer)
